@@ -16,6 +16,9 @@ func init() { register("C20", propC20) }
 type concSpec struct {
 	A, B epCfg
 	prog string
+	// yield: the release of a lock is a scheduling point too (preemption between a critical
+	// section and the unlocked code that follows it)
+	yield bool
 }
 
 // concScenario runs a small concurrent API program after the handshake; every schedule with
@@ -32,6 +35,7 @@ func concScenario(spec *concSpec) *Scenario {
 				m.CloseBoth()
 				return
 			}
+			m.S.YieldAfterUnlock = spec.yield
 			mu := &m.mu
 			a, b := m.As[0], m.As[1]
 			open := func(as *Association, sid uint16) *Stream {
@@ -86,7 +90,10 @@ func concScenario(spec *concSpec) *Scenario {
 			callbacks := 0
 			prog := spec.prog
 			has := func(x string) bool { return strings.Contains(prog, x) }
-			if has("W1") {
+			if has("W1b") {
+				// blocking-write mode, nobody reads: the writer ends up waiting for the window
+				writer("W1", sa1, 6, 500)
+			} else if has("W1") {
 				writer("W1", sa1, 2, 150)
 			}
 			if has("W2") {
@@ -163,13 +170,25 @@ func concScenario(spec *concSpec) *Scenario {
 					}
 				}))
 			}
+			// with a blocking writer the teardown call becomes runnable once four writes have
+			// returned: the fifth one finds the previous write still pending and has to wait
+			gate := func() {
+				if has("W1b") {
+					m.WaitUntil("writer-waits", 30*time.Second, func() bool {
+						mu.Lock()
+						defer mu.Unlock()
+						return len(wrote["W1"]) >= 4
+					})
+				}
+			}
 			teardown := ""
 			if has("Xs") {
-				ts = append(ts, m.Go("Xs", func() { _ = sa1.Close() }))
+				ts = append(ts, m.Go("Xs", func() { gate(); _ = sa1.Close() }))
 			}
 			if has("Xh") {
 				teardown = "shutdown"
 				ts = append(ts, m.Go("Xh", func() {
+					gate()
 					ctx, cancel := context.WithTimeout(context.Background(), 60*time.Second)
 					defer cancel()
 					_ = a.Shutdown(ctx)
@@ -184,7 +203,7 @@ func concScenario(spec *concSpec) *Scenario {
 			}
 			if has("Xc") {
 				teardown = "close"
-				ts = append(ts, m.Go("Xc", func() { _ = a.Close() }))
+				ts = append(ts, m.Go("Xc", func() { gate(); _ = a.Close() }))
 			}
 			if has("Xcb") {
 				teardown = "close"
@@ -192,7 +211,7 @@ func concScenario(spec *concSpec) *Scenario {
 			}
 			if has("Xa") {
 				teardown = "abort"
-				ts = append(ts, m.Go("Xa", func() { a.Abort("concurrent abort") }))
+				ts = append(ts, m.Go("Xa", func() { gate(); a.Abort("concurrent abort") }))
 			}
 			// wait for writers and one-shot threads; readers end at teardown
 			var nonReaders, readers []*vsched.Thread
@@ -387,6 +406,23 @@ func propC20(j *Job) {
 				continue
 			}
 			j.Explore(fmt.Sprintf("C/%s/%s", mode.Name, strings.ReplaceAll(prog, " ", "+")), concScenario(&concSpec{A: a, B: b, prog: prog}), Budget{D: d}, nil)
+			if j.capped() {
+				break
+			}
+		}
+	}
+	// a writer blocked in blocking-write mode (peer window closed) against concurrent teardown,
+	// with lock releases as additional preemption points
+	for mi, mode := range modes {
+		if mi > 0 && !j.Thorough() {
+			break
+		}
+		for _, prog := range []string{"W1b Xh", "W1b Xc", "W1b Xa"} {
+			a := withBase(mode.A, 228, 0xFFFFFFFE, 4000)
+			a.BlockWrite = true
+			b := withBase(mode.B, 228, 0xFFFFFFF0, 4000)
+			b.RecvBuf = 1500
+			j.Explore(fmt.Sprintf("CB/%s/%s", mode.Name, strings.ReplaceAll(prog, " ", "+")), concScenario(&concSpec{A: a, B: b, prog: prog, yield: true}), Budget{D: 1}, nil)
 			if j.capped() {
 				break
 			}
